@@ -1,5 +1,8 @@
 import EaselModel.Dist.GumbelThm
 import EaselModel.Dist.ExpThm
+import EaselModel.Dist.WeiThm
+import EaselModel.Dist.GevThm
+import EaselModel.Dist.MixGen
 import Mathlib.MeasureTheory.Integral.IntervalIntegral.FundThmCalculus
 /-! "The pdf integrates to cdf differences": fundamental theorem of calculus on the proved `HasDerivAt cdf pdf`. -/
 noncomputable section
@@ -28,5 +31,84 @@ theorem exp_integral_pdf {μ l a b : ℝ} (ha : μ < a) (hab : a ≤ b) :
     rw [Set.uIcc_of_le hab] at hx
     simp [expPdf, not_lt.mpr (le_of_lt (lt_of_lt_of_le ha hx.1))]
   exact intervalIntegral.integral_eq_sub_of_hasDerivAt hderiv hcont.intervalIntegrable
+
+/-- FTC for a cdf with a non-negative density: `HasDerivAt F (f x) x` and `0 ≤ f x` on `[a, b]` give
+    `∫_a^b f = F b − F a` (a non-negative derivative is automatically integrable). -/
+theorem ftc_of_nonneg {F f : ℝ → ℝ} {a b : ℝ} (hab : a ≤ b) (hd : ∀ x ∈ Set.Icc a b, HasDerivAt F (f x) x)
+    (h0 : ∀ x ∈ Set.Icc a b, 0 ≤ f x) : ∫ x in a..b, f x = F b - F a := by
+  have hd' : ∀ x ∈ Set.uIcc a b, HasDerivAt F (f x) x := by rwa [Set.uIcc_of_le hab]
+  have hcont : ContinuousOn F (Set.uIcc a b) := fun x hx => (hd' x hx).continuousAt.continuousWithinAt
+  refine intervalIntegral.integral_eq_sub_of_hasDerivAt hd' (intervalIntegral.intervalIntegrable_deriv_of_nonneg hcont ?_ ?_)
+  · intro x hx; rw [min_eq_left hab, max_eq_right hab] at hx; exact hd x (Set.Ioo_subset_Icc_self hx)
+  · intro x hx; rw [min_eq_left hab, max_eq_right hab] at hx; exact h0 x (Set.Ioo_subset_Icc_self hx)
+
+theorem weiPdf_nonneg {μ l τ : ℝ} (hl : 0 ≤ l) (hτ : 0 ≤ τ) (x : ℝ) : 0 ≤ weiPdf μ l τ x := by
+  unfold weiPdf; split_ifs
+  · exact le_refl _
+  · exact mul_nonneg (mul_nonneg (mul_nonneg hl hτ) (exp_pos _).le) (exp_pos _).le
+
+/-- Weibull: `∫_a^b pdf = cdf b - cdf a` for `μ < a ≤ b` (the density is unbounded at `μ` for `τ < 1`) -/
+theorem wei_integral_pdf {μ l τ a b : ℝ} (hl : 0 < l) (hτ : 0 ≤ τ) (ha : μ < a) (hab : a ≤ b) :
+    ∫ x in a..b, weiPdf μ l τ x = weiCdf μ l τ b - weiCdf μ l τ a :=
+  ftc_of_nonneg hab (fun _ hx => WeiThm.weiCdf_hasDerivAt hl (lt_of_lt_of_le ha hx.1)) fun x _ => weiPdf_nonneg hl.le hτ x
+
+theorem gevPdf_nonneg {μ l α : ℝ} (hl : 0 ≤ l) (x : ℝ) : 0 ≤ gevPdf μ l α x := by
+  unfold gevPdf; split_ifs
+  · exact le_refl _
+  · exact mul_nonneg hl (exp_pos _).le
+
+/-- GEV (`α ≠ 0`): `∫_a^b pdf = cdf b - cdf a` whenever `[a, b]` lies inside the support (`1 + α l (x-μ) > 0` at both
+    ends; the support is an interval because that expression is affine in `x`) -/
+theorem gev_integral_pdf {μ l α a b : ℝ} (hl : 0 ≤ l) (hα : α ≠ 0) (hab : a ≤ b) (ha : 0 < gevArg μ l α a) (hb : 0 < gevArg μ l α b) :
+    ∫ x in a..b, gevPdf μ l α x = gevCdf μ l α b - gevCdf μ l α a := by
+  refine ftc_of_nonneg hab (fun x hx => GevThm.gevCdf_hasDerivAt hα ?_) fun x _ => gevPdf_nonneg hl x
+  -- an affine function positive at both ends of `[a,b]` is positive inside
+  unfold gevArg at ha hb ⊢
+  obtain ⟨h1, h2⟩ := hx
+  rcases le_total 0 (α * l) with hs | hs
+  · have : α * (l * (a - μ)) ≤ α * (l * (x - μ)) := by
+      have := mul_le_mul_of_nonneg_left (sub_le_sub_right h1 μ) hs; nlinarith
+    linarith
+  · have : α * (l * (b - μ)) ≤ α * (l * (x - μ)) := by
+      have := mul_le_mul_of_nonpos_left (sub_le_sub_right h2 μ) hs; nlinarith
+    linarith
+
+theorem expPdf_nonneg {μ l : ℝ} (hl : 0 ≤ l) (x : ℝ) : 0 ≤ expPdf μ l x := by
+  unfold expPdf; split_ifs
+  · exact le_refl _
+  · exact mul_nonneg hl (exp_pos _).le
+
+/-! mixtures: the derivative of a finite sum is the sum of the derivatives -/
+open Finset EaselModel.Dist.MixGen in
+theorem hxp_hasDerivAt (h : EaselModel.Dist.Gen.ESL_HYPEREXP ℝ) {x : ℝ} (hx : h.mu < x) : HasDerivAt (hxpCdf h) (hxpPdf h x) x := by
+  unfold hxpCdf hxpPdf
+  exact HasDerivAt.fun_sum fun k _ => (ExpThm.expCdf_hasDerivAt hx).const_mul (hq h k)
+
+open Finset EaselModel.Dist.MixGen in
+theorem hxp_integral_pdf {h : EaselModel.Dist.Gen.ESL_HYPEREXP ℝ} (ok : HxpOK h) {a b : ℝ} (ha : h.mu < a) (hab : a ≤ b) :
+    ∫ x in a..b, hxpPdf h x = hxpCdf h b - hxpCdf h a :=
+  ftc_of_nonneg hab (fun _ hx => hxp_hasDerivAt h (lt_of_lt_of_le ha hx.1)) fun x _ =>
+    sum_nonneg fun k hk => mul_nonneg (ok k (mem_range.mp hk)).1 (expPdf_nonneg (ok k (mem_range.mp hk)).2.le x)
+
+open Finset EaselModel.Dist.MixGen in
+/-- mixture of GEVs on an interval inside every component's support -/
+theorem mixgev_integral_pdf {g : EaselModel.Dist.Gen.ESL_MIXGEV ℝ} (ok : MixgevOK g) {a b : ℝ} (hab : a ≤ b)
+    (hs : ∀ k < g.K, 0 < gevArg (gm g k) (gl g k) (ga g k) a ∧ 0 < gevArg (gm g k) (gl g k) (ga g k) b) :
+    ∫ x in a..b, mixgevPdf g x = mixgevCdf g b - mixgevCdf g a := by
+  refine ftc_of_nonneg hab (fun x hx => ?_) fun x _ =>
+    sum_nonneg fun k hk => mul_nonneg (ok k (mem_range.mp hk)).1 (gevPdf_nonneg (ok k (mem_range.mp hk)).2.1.le x)
+  unfold mixgevCdf mixgevPdf
+  refine HasDerivAt.fun_sum fun k hk => (GevThm.gevCdf_hasDerivAt (ok k (mem_range.mp hk)).2.2 ?_).const_mul (gq g k)
+  -- positivity of the affine support expression inside [a, b]
+  obtain ⟨pa, pb⟩ := hs k (mem_range.mp hk)
+  unfold gevArg at pa pb ⊢
+  obtain ⟨h1, h2⟩ := hx
+  rcases le_total 0 (ga g k * gl g k) with hs' | hs'
+  · have : ga g k * (gl g k * (a - gm g k)) ≤ ga g k * (gl g k * (x - gm g k)) := by
+      have := mul_le_mul_of_nonneg_left (sub_le_sub_right h1 (gm g k)) hs'; nlinarith
+    linarith
+  · have : ga g k * (gl g k * (b - gm g k)) ≤ ga g k * (gl g k * (x - gm g k)) := by
+      have := mul_le_mul_of_nonpos_left (sub_le_sub_right h2 (gm g k)) hs'; nlinarith
+    linarith
 
 end EaselModel.Dist.IntegralThm
